@@ -1,7 +1,8 @@
 /*
  * strcheck - C18: cif_analyze_string statistics and delimiter recommendation agree with what the CIF 2.0 parser reads
  * back; cif_value_set_quoted(NOT_QUOTED) and cif_is_reserved_string against independent predicates.
- * Exhaustive over all strings up to a length bound over the syntactically significant alphabet.
+ * Exhaustive over all strings up to a length bound over the syntactically significant alphabet (and over an alphabet
+ * of non-ASCII code units, including ones whose low bits alias significant ASCII characters, and a surrogate pair).
  * usage: strcheck <tier> <nworkers> <worker>
  */
 #include <stdio.h>
@@ -24,25 +25,28 @@ static void viol(const char *fam, const char *fmt, ...) {
     va_start(ap, fmt); vprintf(fmt, ap); va_end(ap);
     printf("\n");
 }
-static const char *show(const char *s) {
-    static char buf[8][600]; static int k = 0; char *b = buf[k = (k + 1) % 8]; int n = 0;
+static const char *show(const UChar *s) {
+    static char buf[8][1000]; static int k = 0; char *b = buf[k = (k + 1) % 8]; int n = 0;
     b[n++] = '"';
-    for (; *s && n < 580; s++) {
+    for (; *s && n < 960; s++) {
         if (*s == '\n') { b[n++] = '\\'; b[n++] = 'n'; } else if (*s == '\r') { b[n++] = '\\'; b[n++] = 'r'; }
-        else if (*s == '\t') { b[n++] = '\\'; b[n++] = 't'; } else if (*s == '"' || *s == '\\') { b[n++] = '\\'; b[n++] = *s; }
-        else b[n++] = *s;
+        else if (*s == '\t') { b[n++] = '\\'; b[n++] = 't'; } else if (*s == '"' || *s == '\\') { b[n++] = '\\'; b[n++] = (char) *s; }
+        else if (*s < 0x7f && *s >= 0x20) b[n++] = (char) *s;
+        else n += sprintf(b + n, "\\u%04X", (unsigned) *s);
     }
     b[n++] = '"'; b[n] = 0;
     return b;
 }
-static void to_u(const char *s, UChar *u) { size_t i; for (i = 0; s[i]; i++) u[i] = (UChar)(unsigned char) s[i]; u[i] = 0; }
-static void to_a(const UChar *u, char *s, size_t cap) { size_t i; for (i = 0; u[i] && i + 1 < cap; i++) s[i] = (u[i] < 128) ? (char) u[i] : '?'; s[i] = 0; }
+static int has(const UChar *s, UChar c) { for (; *s; s++) if (*s == c) return 1; return 0; }
+static int eq_a(const UChar *s, const char *a) { for (; *a; a++, s++) if (*s != (UChar)(unsigned char) *a) return 0; return *s == 0; }
+static int ulen(const UChar *s) { int n = 0; while (s[n]) n++; return n; }
+static const UChar *ufind(const UChar *s, const UChar *sub) { int n = ulen(sub); for (; *s; s++) if (u_strncmp(s, sub, n) == 0) return s; return NULL; }
 
 /* ---------- independent definitions ---------- */
 struct stats { int length, nlines, first, last, max, semirun, nlsemi, trail_before_eol, trail_at_end; };
-static void my_stats(const char *s, struct stats *st) {
+static void my_stats(const UChar *s, struct stats *st) {
     int i = 0, cur = 0, run = 0, line = 0; memset(st, 0, sizeof *st);
-    st->length = (int) strlen(s); st->nlines = 1;
+    st->length = ulen(s); st->nlines = 1;
     while (s[i]) {
         int eol = 0, w = 1;
         if (s[i] == '\r' && s[i + 1] == '\n') { eol = 1; w = 2; } else if (s[i] == '\r' || s[i] == '\n') eol = 1;
@@ -62,18 +66,18 @@ static void my_stats(const char *s, struct stats *st) {
     st->last = cur; if (cur > st->max) st->max = cur;
     if (st->length > 0 && (s[st->length - 1] == ' ' || s[st->length - 1] == '\t')) st->trail_at_end = 1;
 }
-static int ieq(const char *s, const char *w, int exact) {
+static int ieq(const UChar *s, const char *w, int exact) {
     size_t i, n = strlen(w);
-    for (i = 0; i < n; i++) if (tolower((unsigned char) s[i]) != w[i]) return 0;
+    for (i = 0; i < n; i++) if (s[i] >= 128 || tolower((int) s[i]) != w[i]) return 0;
     return exact ? s[n] == 0 : 1;
 }
-static int my_reserved(const char *s) {
+static int my_reserved(const UChar *s) {
     if (s[0] == '_' || s[0] == '#' || s[0] == '$' || s[0] == '\'' || s[0] == '"') return 1;
     return ieq(s, "data_", 0) || ieq(s, "save_", 0) || ieq(s, "loop_", 1) || ieq(s, "stop_", 1) || ieq(s, "global_", 1);
 }
 /* may the character value be presented whitespace-delimited in CIF 2.0 (not at the start of a line)? */
-static int my_bare(const char *s) {
-    const char *p;
+static int my_bare(const UChar *s) {
+    const UChar *p;
     if (!s[0]) return 0;
     for (p = s; *p; p++) if (*p == ' ' || *p == '\t' || *p == '\n' || *p == '\r' || *p == '[' || *p == ']' || *p == '{' || *p == '}') return 0;
     if (my_reserved(s)) return 0;
@@ -81,7 +85,7 @@ static int my_bare(const char *s) {
 }
 
 /* ---------- parse-back probe ---------- */
-struct got { int nerr, nitems, kind, quoted; char text[700]; int firsterr; int textlen; };
+struct got { int nerr, nitems, kind, quoted; UChar text[3000]; int firsterr; int textlen; };
 static int err_cb(int code, size_t line, size_t col, const UChar *t, size_t len, void *d) {
     struct got *g = (struct got *) d; (void) line; (void) col; (void) t; (void) len;
     if (!g->nerr) g->firsterr = code; g->nerr++; return 0;
@@ -92,148 +96,164 @@ static int item_cb(UChar *name, cif_value_tp *v, void *d) {
     if (name && u_strcmp(name, WANT_NAME) == 0) {
         UChar *t = NULL;
         g->nitems++; g->kind = (int) cif_value_kind(v); g->quoted = (int) cif_value_is_quoted(v);
-        g->text[0] = 0;
-        if (cif_value_get_text(v, &t) == CIF_OK && t) { to_a(t, g->text, sizeof g->text); g->textlen = (int) u_strlen(t); free(t); }
+        g->text[0] = 0; g->textlen = 0;
+        if (cif_value_get_text(v, &t) == CIF_OK && t) { g->textlen = ulen(t); if (g->textlen < 2999) u_strcpy(g->text, t); free(t); }
     }
     return CIF_TRAVERSE_CONTINUE;
 }
 static cif_tp *HOST = NULL;
 static int SYNTAX_ONLY = 0;   /* syntax-only parses (no target CIF) are 20x cheaper; one layout per string still stores */
-static void probe(const char *doc, size_t doclen, struct got *g) {
+/* doc: UChar text, converted to UTF-8 here */
+static void probe(const UChar *doc, struct got *g) {
     struct cif_parse_opts_s *o = NULL; cif_handler_tp h; FILE *f; cif_tp *target = HOST; cif_block_tp *b = NULL;
-    static const UChar code[] = { 'd', 0 };
-    memset(g, 0, sizeof *g); memset(&h, 0, sizeof h);
+    static const UChar code[] = { 'd', 0 }; static char utf8[20000]; int32_t n = 0; UErrorCode e = U_ZERO_ERROR;
+    g->nerr = g->nitems = g->kind = g->quoted = g->firsterr = g->textlen = 0; g->text[0] = 0; memset(&h, 0, sizeof h);
+    u_strToUTF8(utf8, sizeof utf8, &n, doc, -1, &e);
+    if (U_FAILURE(e)) { g->nerr = 9999; return; }
     if (cif_parse_options_create(&o) != CIF_OK) return;
     h.handle_item = item_cb; o->handler = &h; o->error_callback = err_cb; o->user_data = g;
-    f = fmemopen((void *) doc, doclen, "rb");
+    f = fmemopen((void *) utf8, (size_t) n, "rb");
     if (cif_parse(f, o, SYNTAX_ONLY ? NULL : &target) != CIF_OK) g->nerr += 1000;
     fclose(f); free(o); parses++;
     if (!SYNTAX_ONLY && cif_get_block(HOST, code, &b) == CIF_OK) (void) cif_container_destroy(b);
 }
+static int uputs(UChar *d, const char *a) { int n = 0; for (; *a; a++) d[n++] = (UChar)(unsigned char) *a; d[n] = 0; return n; }
+static int ucat(UChar *d, const UChar *s) { int n = 0; for (; *s; s++) d[n++] = *s; d[n] = 0; return n; }
 
 /* present s with the recommended delimiter (my own encoder for the text-field protocols) */
-static size_t presentation(const char *s, const struct cif_string_analysis_s *a, char *out) {
-    char d[8]; size_t n = 0; to_a(a->delim, d, sizeof d);
-    if (a->delim_length == 0) { strcpy(out, s); return strlen(s); }
-    if (a->delim_length == 1 || a->delim_length == 3) { n = (size_t) sprintf(out, "%s%s%s", d, s, d); return n; }
+static int presentation(const UChar *s, const struct cif_string_analysis_s *a, UChar *out) {
+    int n = 0;
+    if (a->delim_length == 0) return ucat(out, s);
+    if (a->delim_length == 1 || a->delim_length == 3) { n += ucat(out + n, a->delim); n += ucat(out + n, s); n += ucat(out + n, a->delim); return n; }
     /* text field: always written with the prefix protocol, which is safe for every content without CR */
-    out[n++] = '\n'; out[n++] = ';'; out[n++] = '>'; out[n++] = '\\'; out[n++] = '\n'; out[n++] = '>';
+    n += uputs(out + n, "\n;>\\\n>");
     for (; *s; s++) { out[n++] = *s; if (*s == '\n') out[n++] = '>'; }
-    out[n++] = '\n'; out[n++] = ';'; out[n] = 0;
+    n += uputs(out + n, "\n;");
     return n;
 }
 
-static void check_readback(const char *s, const struct cif_string_analysis_s *a, int allow_unq, int allow_tri) {
-    static char pres[3000], doc[9000]; struct got g; size_t pl = presentation(s, a, pres), n; int layout;
-    int want_quoted = a->delim_length != 0; int single = (strchr(pres, '\n') == NULL);
+static void check_readback(const UChar *s, const struct cif_string_analysis_s *a, int allow_unq, int allow_tri) {
+    static UChar pres[3000], doc[9000]; struct got g; int n, layout;
+    int want_quoted = a->delim_length != 0; int single, cols;
+    (void) presentation(s, a, pres);
+    single = !has(pres, '\n');
+    cols = u_countChar32(pres, -1);     /* the line limit counts characters */
     for (layout = 0; layout < 4; layout++) {
-        if (layout == 3 && (!single || pl + 4 > 2048)) continue;
-        n = 0;
-        n += (size_t) sprintf(doc + n, "#\\#CIF_2.0\ndata_d\n");
-        if (layout == 0) n += (size_t) sprintf(doc + n, "_v %s\n", pres);
-        else if (layout == 1) n += (size_t) sprintf(doc + n, "_w x\n_v\n%s\n_z 1\n", pres[0] == '\n' ? pres + 1 : pres);     /* at column 1 */
-        else if (layout == 2) n += (size_t) sprintf(doc + n, "loop_ _u _v\n1 %s 2 %s\n", pres, pres);                      /* after another value */
-        else { size_t pad = 2048 - 2 - pl; n += (size_t) sprintf(doc + n, "_v%*s%s\n", (int) pad, "", pres); }             /* ends at the last column */
+        if (layout == 3 && (!single || cols + 4 > 2048)) continue;
+        n = uputs(doc, "#\\#CIF_2.0\ndata_d\n");
+        if (layout == 0) { n += uputs(doc + n, "_v "); n += ucat(doc + n, pres); n += uputs(doc + n, "\n"); }
+        else if (layout == 1) { n += uputs(doc + n, "_w x\n_v\n"); n += ucat(doc + n, pres[0] == '\n' ? pres + 1 : pres); n += uputs(doc + n, "\n_z 1\n"); }
+        else if (layout == 2) { n += uputs(doc + n, "loop_ _u _v\n1 "); n += ucat(doc + n, pres); n += uputs(doc + n, " 2 "); n += ucat(doc + n, pres); n += uputs(doc + n, "\n"); }
+        else { int pad = 2048 - 2 - cols; n += uputs(doc + n, "_v"); while (pad-- > 0) doc[n++] = ' '; doc[n] = 0; n += ucat(doc + n, pres); n += uputs(doc + n, "\n"); }
         SYNTAX_ONLY = (layout != 0);
-        probe(doc, n, &g);
+        probe(doc, &g);
         SYNTAX_ONLY = 0;
         {
             int expect_items = (layout == 2) ? 2 : 1;
-            if (g.nerr || g.nitems != expect_items || g.kind != CIF_CHAR_KIND || strcmp(g.text, s) != 0 || (g.quoted != 0) != want_quoted)
+            if (g.nerr || g.nitems != expect_items || g.kind != CIF_CHAR_KIND || u_strcmp(g.text, s) != 0 || (g.quoted != 0) != want_quoted)
                 viol("readback", "%s (allow_unquoted=%d allow_triple=%d): recommended delimiter %s, layout %d: parser reported %d error(s) (first %d), %d item(s), kind %d quoted %d text %s",
                      show(s), allow_unq, allow_tri, a->delim_length == 0 ? "(none)" : show(pres), layout, g.nerr, g.firsterr, g.nitems, g.kind, g.quoted, show(g.text));
         }
     }
 }
 
-static void check_string(const char *s, int do_parse) {
+static void check_string(const UChar *u, int do_parse) {
     static const int limits[] = { 2048, 12, 8, 6, 3 };
-    UChar u[64]; struct stats st; int au, at; size_t li;
-    to_u(s, u); my_stats(s, &st);
+    struct stats st; int au, at; size_t li;
+    static const UChar q1[] = { '\'', 0 }, q2[] = { '"', 0 }, t1[] = { '\'', '\'', '\'', 0 }, t2[] = { '"', '"', '"', 0 }, tx[] = { '\n', ';', 0 };
+    my_stats(u, &st);
     for (li = 0; li < sizeof limits / sizeof limits[0]; li++) for (au = 0; au < 2; au++) for (at = 0; at < 2; at++) {
-        struct cif_string_analysis_s a; int lim = limits[li]; char d[8]; int rc;
+        struct cif_string_analysis_s a; int lim = limits[li]; int rc; const UChar *d;
         memset(&a, 0x5a, sizeof a);
         rc = cif_analyze_string(u, au, at, lim, &a);
         evals++;
-        if (rc != CIF_OK) { viol("analyze", "%s: cif_analyze_string returned %d", show(s), rc); continue; }
-        to_a(a.delim, d, sizeof d);
+        if (rc != CIF_OK) { viol("analyze", "%s: cif_analyze_string returned %d", show(u), rc); continue; }
+        d = a.delim;
         /* O1: statistics (reported once per string) */
         if (li == 0 && au == 0 && at == 0) if (a.length != st.length || a.num_lines != st.nlines || a.length_first != st.first || a.length_last != st.last || a.length_max != st.max
             || a.max_semi_run != st.semirun || (a.contains_text_delim != 0) != st.nlsemi
             || ((a.has_trailing_ws != 0) != (st.trail_before_eol || st.trail_at_end) && (a.has_trailing_ws != 0) != st.trail_before_eol))
-            viol("stats", "%s: length %d lines %d first %d last %d max %d semis %d nl-semi %d trailing-ws %d; exact values %d %d %d %d %d %d %d %d(or %d)", show(s),
+            viol("stats", "%s: length %d lines %d first %d last %d max %d semis %d nl-semi %d trailing-ws %d; exact values %d %d %d %d %d %d %d %d(or %d)", show(u),
                  a.length, a.num_lines, a.length_first, a.length_last, a.length_max, a.max_semi_run, a.contains_text_delim, a.has_trailing_ws,
                  st.length, st.nlines, st.first, st.last, st.max, st.semirun, st.nlsemi, st.trail_before_eol, st.trail_before_eol || st.trail_at_end);
         /* O2a: the delimiter is one the arguments permit, and it is structurally usable */
-        if (a.delim_length != strlen(d)) viol("delim", "%s: delim_length %u for delimiter %s", show(s), a.delim_length, show(d));
+        if ((int) a.delim_length != ulen(d)) viol("delim", "%s: delim_length %u for delimiter %s", show(u), a.delim_length, show(d));
         if (a.delim_length == 0) {
-            if (!au) viol("delim", "%s: whitespace-delimited form recommended although allow_unquoted = 0", show(s));
-            if (!my_bare(s) || s[0] == ';' || !strcmp(s, "?") || !strcmp(s, ".") || st.nlines != 1) viol("delim", "%s: whitespace-delimited form recommended for a value that cannot be presented that way", show(s));
-            if (st.max > lim) viol("delim", "%s: does not fit the length limit %d bare", show(s), lim);
+            if (!au) viol("delim", "%s: whitespace-delimited form recommended although allow_unquoted = 0", show(u));
+            if (!my_bare(u) || u[0] == ';' || eq_a(u, "?") || eq_a(u, ".") || st.nlines != 1) viol("delim", "%s: whitespace-delimited form recommended for a value that cannot be presented that way", show(u));
+            if (st.max > lim) viol("delim", "%s: does not fit the length limit %d bare", show(u), lim);
         } else if (a.delim_length == 1) {
-            if (strcmp(d, "'") && strcmp(d, "\"")) viol("delim", "%s: odd delimiter %s", show(s), show(d));
-            else if (strchr(s, d[0]) || st.nlines != 1 || st.length + 2 > lim) viol("delim", "%s: delimiter %s cannot present it within %d", show(s), d, lim);
+            if (u_strcmp(d, q1) && u_strcmp(d, q2)) viol("delim", "%s: odd delimiter %s", show(u), show(d));
+            else if (has(u, d[0]) || st.nlines != 1 || st.length + 2 > lim) viol("delim", "%s: delimiter %s cannot present it within %d", show(u), show(d), lim);
         } else if (a.delim_length == 3) {
-            if (!at) viol("delim", "%s: triple-quoted form recommended although allow_triple_quoted = 0", show(s));
-            if ((strcmp(d, "'''") && strcmp(d, "\"\"\"")) ) viol("delim", "%s: odd delimiter %s", show(s), show(d));
-            else if (strstr(s, d) || (st.length && s[st.length - 1] == d[0]) || st.first + 3 > lim || st.last + 3 > lim || st.max > lim)
-                viol("delim", "%s: delimiter %s cannot present it within %d", show(s), d, lim);
+            if (!at) viol("delim", "%s: triple-quoted form recommended although allow_triple_quoted = 0", show(u));
+            if (u_strcmp(d, t1) && u_strcmp(d, t2)) viol("delim", "%s: odd delimiter %s", show(u), show(d));
+            else if (ufind(u, d) || (st.length && u[st.length - 1] == d[0]) || st.first + 3 > lim || st.last + 3 > lim || st.max > lim)
+                viol("delim", "%s: delimiter %s cannot present it within %d", show(u), show(d), lim);
         } else if (a.delim_length == 2) {
-            if (strcmp(d, "\n;")) viol("delim", "%s: odd delimiter %s", show(s), show(d));
-        } else viol("delim", "%s: delim_length %u", show(s), a.delim_length);
+            if (u_strcmp(d, tx)) viol("delim", "%s: odd delimiter %s", show(u), show(d));
+        } else viol("delim", "%s: delim_length %u", show(u), a.delim_length);
         /* O3: the simple forms are recommended whenever the string is one line that admits them with room to spare */
         if (st.nlines == 1) {
-            if (au && my_bare(s) && s[0] != ';' && strcmp(s, "?") && strcmp(s, ".") && st.length <= lim) {
-                if (a.delim_length != 0) viol("simple", "%s: can be presented whitespace-delimited (limit %d) but %s was recommended", show(s), lim, show(d));
-            } else if ((!strchr(s, '\'') || !strchr(s, '"')) && st.length + 2 <= lim) {
-                if (a.delim_length != 1 && !(a.delim_length == 0)) viol("simple", "%s: can be presented in single quotes (limit %d) but %s was recommended", show(s), lim, show(d));
+            if (au && my_bare(u) && u[0] != ';' && !eq_a(u, "?") && !eq_a(u, ".") && st.length <= lim) {
+                if (a.delim_length != 0) viol("simple", "%s: can be presented whitespace-delimited (limit %d) but %s was recommended", show(u), lim, show(d));
+            } else if ((!has(u, '\'') || !has(u, '"')) && st.length + 2 <= lim) {
+                if (a.delim_length != 1 && !(a.delim_length == 0)) viol("simple", "%s: can be presented in single quotes (limit %d) but %s was recommended", show(u), lim, show(d));
             }
         }
         if (a.delim_length) nontriv++;
         /* O2b: read back by the CIF 2.0 parser (real line limit only; CR cannot round-trip through a value) */
-        if (do_parse && lim == 2048 && !strchr(s, '\r')) check_readback(s, &a, au, at);
+        if (do_parse && lim == 2048 && !has(u, '\r')) check_readback(u, &a, au, at);
     }
     /* O4: set_quoted(NOT_QUOTED) and the scanner agree with the grammar predicate */
     {
-        cif_value_tp *v = NULL; int rc, want_ok = my_bare(s);
+        cif_value_tp *v = NULL; int rc, want_ok = my_bare(u);
         evals++;
         if (cif_value_create(CIF_UNK_KIND, &v) == CIF_OK && cif_value_copy_char(v, u) == CIF_OK) {
             rc = cif_value_set_quoted(v, CIF_NOT_QUOTED);
-            if (want_ok ? rc != CIF_OK : rc == CIF_OK) viol("set_quoted", "%s: set_quoted(NOT_QUOTED) returned %d, CIF 2.0 %s it whitespace-delimited", show(s), rc, want_ok ? "allows" : "does not allow");
+            if (want_ok ? rc != CIF_OK : rc == CIF_OK) viol("set_quoted", "%s: set_quoted(NOT_QUOTED) returned %d, CIF 2.0 %s it whitespace-delimited", show(u), rc, want_ok ? "allows" : "does not allow");
             if (rc == CIF_OK) {
                 int k = (int) cif_value_kind(v);
-                if (!strcmp(s, "?") ? k != CIF_UNK_KIND : !strcmp(s, ".") ? k != CIF_NA_KIND : (k != CIF_CHAR_KIND || cif_value_is_quoted(v) != CIF_NOT_QUOTED))
-                    viol("set_quoted", "%s: after set_quoted(NOT_QUOTED) kind %d quoted %d", show(s), k, (int) cif_value_is_quoted(v));
-            } else if (cif_value_kind(v) != CIF_CHAR_KIND || cif_value_is_quoted(v) != CIF_QUOTED) viol("set_quoted", "%s: a refused set_quoted changed the value", show(s));
+                if (eq_a(u, "?") ? k != CIF_UNK_KIND : eq_a(u, ".") ? k != CIF_NA_KIND : (k != CIF_CHAR_KIND || cif_value_is_quoted(v) != CIF_NOT_QUOTED))
+                    viol("set_quoted", "%s: after set_quoted(NOT_QUOTED) kind %d quoted %d", show(u), k, (int) cif_value_is_quoted(v));
+            } else if (cif_value_kind(v) != CIF_CHAR_KIND || cif_value_is_quoted(v) != CIF_QUOTED) viol("set_quoted", "%s: a refused set_quoted changed the value", show(u));
         }
         if (v) cif_value_free(v);
-        if ((cif_is_reserved_string(u) != 0) != my_reserved(s)) viol("reserved", "%s: cif_is_reserved_string = %d, predicate %d", show(s), cif_is_reserved_string(u), my_reserved(s));
-        if (do_parse && s[0] && !strchr(s, '\r') && !strchr(s, '\n') && !strchr(s, ' ') && !strchr(s, '\t')) {
+        if ((cif_is_reserved_string(u) != 0) != my_reserved(u)) viol("reserved", "%s: cif_is_reserved_string = %d, predicate %d", show(u), cif_is_reserved_string(u), my_reserved(u));
+        if (do_parse && u[0] && !has(u, '\r') && !has(u, '\n') && !has(u, ' ') && !has(u, '\t')) {
             /* the scanner: the text as a bare token in mid-line reads back unquoted and without error iff the predicate holds */
-            static char doc[400]; struct got g; size_t n = (size_t) sprintf(doc, "#\\#CIF_2.0\ndata_d\n_v %s\n", s);
-            int clean;
-            SYNTAX_ONLY = 1; probe(doc, n, &g); SYNTAX_ONLY = 0;
-            clean = (g.nerr == 0 && g.nitems == 1 && ((g.kind == CIF_CHAR_KIND && g.quoted == 0 && !strcmp(g.text, s)) || (!strcmp(s, "?") && g.kind == CIF_UNK_KIND) || (!strcmp(s, ".") && g.kind == CIF_NA_KIND)));
-            if (want_ok && !clean) viol("scanner", "bare %s: CIF 2.0 allows it whitespace-delimited but the parser reported %d error(s) (first %d), %d item(s) kind %d quoted %d text %s", show(s), g.nerr, g.firsterr, g.nitems, g.kind, g.quoted, show(g.text));
-            if (!want_ok && clean) viol("scanner", "bare %s: not a whitespace-delimited value in CIF 2.0, yet the parser read it as one without error", show(s));
+            static UChar doc[400]; struct got g; int n = uputs(doc, "#\\#CIF_2.0\ndata_d\n_v "), clean;
+            n += ucat(doc + n, u); n += uputs(doc + n, "\n");
+            SYNTAX_ONLY = 1; probe(doc, &g); SYNTAX_ONLY = 0;
+            clean = (g.nerr == 0 && g.nitems == 1 && ((g.kind == CIF_CHAR_KIND && g.quoted == 0 && !u_strcmp(g.text, u)) || (eq_a(u, "?") && g.kind == CIF_UNK_KIND) || (eq_a(u, ".") && g.kind == CIF_NA_KIND)));
+            if (want_ok && !clean) viol("scanner", "bare %s: CIF 2.0 allows it whitespace-delimited but the parser reported %d error(s) (first %d), %d item(s) kind %d quoted %d text %s", show(u), g.nerr, g.firsterr, g.nitems, g.kind, g.quoted, show(g.text));
+            if (!want_ok && clean) viol("scanner", "bare %s: not a whitespace-delimited value in CIF 2.0, yet the parser read it as one without error", show(u));
         }
     }
 }
 
-static void all_strings(const char *alpha, int L, int do_parse, const char *label) {
-    int n = (int) strlen(alpha), len; long idx = 0, e0 = evals, n0 = nontriv;
+/* alphabet: array of UChar sequences (a member may be a surrogate pair) */
+static void all_strings(const UChar *const *alpha, int n, int L, int do_parse, const char *label) {
+    int len; long idx = 0, e0 = evals, n0 = nontriv;
     for (len = 0; len <= L; len++) {
         long total = 1, k; int i;
         for (i = 0; i < len; i++) total *= n;
         for (k = 0; k < total; k++, idx++) {
-            char s[16]; long t = k;
+            UChar s[40]; int pick[16]; long t = k; int m = 0;
             if (idx % NW != WK) continue;
-            for (i = len - 1; i >= 0; i--) { s[i] = alpha[t % n]; t /= n; }
-            s[len] = 0;
+            for (i = len - 1; i >= 0; i--) { pick[i] = (int) (t % n); t /= n; }
+            s[0] = 0;
+            for (i = 0; i < len; i++) m += ucat(s + m, alpha[pick[i]]);
+            s[m] = 0;
             check_string(s, do_parse);
         }
     }
     printf("S %s %ld %ld\n", label, evals - e0, nontriv - n0);
+}
+static void all_strings_a(const char *alpha, int L, int do_parse, const char *label) {
+    static UChar store[64][2]; static const UChar *ptr[64]; int n = (int) strlen(alpha), i;
+    for (i = 0; i < n; i++) { store[i][0] = (UChar)(unsigned char) alpha[i]; store[i][1] = 0; ptr[i] = store[i]; }
+    all_strings(ptr, n, L, do_parse, label);
 }
 
 static void reserved_words(void) {
@@ -241,10 +261,10 @@ static void reserved_words(void) {
     size_t w; long e0 = evals;
     for (w = 0; w < sizeof words / sizeof words[0]; w++) {
         size_t n = strlen(words[w]); unsigned m;
-        if ((int) (w % NW) != WK % NW && NW <= 16) { if ((long) w % NW != WK) continue; }
+        if ((long) w % NW != WK) continue;
         for (m = 0; m < (1u << n); m++) {
-            char s[16]; size_t i;
-            for (i = 0; i < n; i++) s[i] = (m >> i) & 1 ? (char) toupper((unsigned char) words[w][i]) : words[w][i];
+            UChar s[16]; size_t i;
+            for (i = 0; i < n; i++) s[i] = (UChar) ((m >> i) & 1 ? toupper((unsigned char) words[w][i]) : words[w][i]);
             s[n] = 0;
             check_string(s, 1);
         }
@@ -253,26 +273,28 @@ static void reserved_words(void) {
 }
 
 static void long_lines(void) {
-    /* the thresholds limit-6, limit-3, limit-2, limit with the real limit: a^n, with one quote of each kind */
-    int n; long e0 = evals; static char s[2200];
+    /* the thresholds limit-6, limit-3, limit-2, limit with the real limit: a^n */
+    int n; long e0 = evals; static UChar s[2300];
     for (n = 2036; n <= 2052; n++) {
+        int i;
         if (n % NW != WK) continue;
-        memset(s, 'a', (size_t) n); s[n] = 0;
-        { UChar u[2200]; struct cif_string_analysis_s a; int au, at; struct stats st; to_u(s, u); my_stats(s, &st);
+        for (i = 0; i < n; i++) s[i] = 'a';
+        s[n] = 0;
+        { struct cif_string_analysis_s a; int au, at;
           for (au = 0; au < 2; au++) for (at = 0; at < 2; at++) {
-              cif_analyze_string(u, au, at, 2048, &a); evals++;
+              cif_analyze_string(s, au, at, 2048, &a); evals++;
               if (a.length != n || a.length_max != n) viol("stats", "a^%d: length %d max %d", n, a.length, a.length_max);
-              if (au && n <= 2048 && a.delim_length != 0) viol("simple", "a^%d fits bare but delimiter length %u recommended", n, a.delim_length);
-              if (!au && n + 2 <= 2048 && a.delim_length != 1) viol("simple", "a^%d fits in single quotes but delimiter length %u recommended", n, a.delim_length);
               if (a.delim_length == 0 && n > 2048) viol("delim", "a^%d recommended bare beyond the limit", n);
               if (a.delim_length == 1 && n + 2 > 2048) viol("delim", "a^%d recommended single-quoted beyond the limit", n);
               if (a.delim_length == 3 && n + 6 > 2048) viol("delim", "a^%d recommended triple-quoted beyond the limit", n);
+              if (au && n <= 2048 && a.delim_length != 0) viol("simple", "a^%d fits bare but delimiter length %u recommended", n, a.delim_length);
+              if (!au && n + 2 <= 2048 && a.delim_length != 1) viol("simple", "a^%d fits in single quotes but delimiter length %u recommended", n, a.delim_length);
               if (a.delim_length != 2 && n + 2 * (int) a.delim_length <= 2048) {
                   /* read back at the start of a line */
-                  static char doc[4600]; struct got g; char d[8]; size_t dn; to_a(a.delim, d, sizeof d);
-                  dn = (size_t) sprintf(doc, "#\\#CIF_2.0\ndata_d\n_v\n%s%s%s\n", d, s, d);
-                  probe(doc, dn, &g);
-                  if (g.nerr || g.nitems != 1 || g.textlen != n) viol("readback", "a^%d with delimiter %s: %d error(s) (first %d), text length %d", n, show(d), g.nerr, g.firsterr, g.textlen);
+                  static UChar doc[4800]; struct got g; int dn = uputs(doc, "#\\#CIF_2.0\ndata_d\n_v\n");
+                  dn += ucat(doc + dn, a.delim); dn += ucat(doc + dn, s); dn += ucat(doc + dn, a.delim); dn += uputs(doc + dn, "\n");
+                  probe(doc, &g);
+                  if (g.nerr || g.nitems != 1 || g.textlen != n) viol("readback", "a^%d with delimiter %s: %d error(s) (first %d), text length %d", n, show(a.delim), g.nerr, g.firsterr, g.textlen);
               }
           } }
     }
@@ -281,11 +303,16 @@ static void long_lines(void) {
 
 int main(int argc, char **argv) {
     const char *tier = argc > 1 ? argv[1] : "quick";
+    /* non-ASCII code units: U+00E9, units whose low 7 bits alias LF, SP, ', ", [, {, ;  and a surrogate pair */
+    static const UChar n0[] = { 'a', 0 }, n1[] = { 0xe9, 0 }, n2[] = { 0x010a, 0 }, n3[] = { 0x0120, 0 }, n4[] = { 0x0127, 0 }, n5[] = { 0x0122, 0 },
+        n6[] = { 0x015b, 0 }, n7[] = { 0x017b, 0 }, n8[] = { 0x013b, 0 }, n9[] = { 0xd83d, 0xde00, 0 }, n10[] = { '\'', 0 }, n11[] = { '"', 0 }, n12[] = { '\n', 0 };
+    static const UChar *const nonascii[] = { n0, n1, n2, n3, n4, n5, n6, n7, n8, n9, n10, n11, n12 };
     NW = argc > 2 ? atoi(argv[2]) : 1; WK = argc > 3 ? atoi(argv[3]) : 0;
     THOROUGH = strcmp(tier, "thorough") == 0;
     if (cif_create(&HOST) != CIF_OK) { printf("V setup cif_create failed\n"); return 1; }
-    all_strings("a \t'\";\n\r#_$[]{}?.\\", THOROUGH ? 5 : 4, 1, "all-strings");
-    all_strings("'\";\na", THOROUGH ? 8 : 6, 1, "quote-strings");
+    all_strings_a("a \t'\";\n\r#_$[]{}?.\\", THOROUGH ? 5 : 4, 1, "all-strings");
+    all_strings_a("'\";\na", THOROUGH ? 8 : 6, 1, "quote-strings");
+    all_strings(nonascii, 13, THOROUGH ? 4 : 3, 1, "non-ascii-strings");
     reserved_words();
     long_lines();
     printf("P %ld\n", parses);
